@@ -306,7 +306,7 @@ def run(ctx):
         raise core.MachineryError("no macro cases generated")
     good = [c for c in cases if not c["ill"]]
     ctx.cov["rule"] = (
-        "every combination of one definition per slot F (17 function-like bodies: parameters, variadics, #, ##, nested "
+        "every combination of one definition per slot F (18 function-like bodies: parameters, variadics, #, ##, nested "
         "calls, self/mutual recursion), G (object-/function-like, forwarding, stringifying), O (object-like incl. self, "
         "mutual, naming a function-like macro, empty, containing a comma) x 34 invocation lines (0..n arguments incl. "
         "empty, parenthesised, macro-valued, trailing source tokens); the reference expansion is CMacro.Expand; cases a "
